@@ -34,6 +34,10 @@ which helpers of the analysed class are called.
              list / dict, read through sorted / reversed), whose add / remove / iterate semantics every
              rule above assumes; a container class defined in the analysed tree in that role is
              reported: the property then rests on that class's correctness, which is not established.
+  C04.LIVE   what both sweeps iterate is, after every history of public calls, exactly the set of proposals
+             in force: every proposal that was stored and has not been replaced by its own actor or
+             expired - a proposal of another actor (also one with the same priority) is not evicted by a
+             store, and after the expiry sweep neither sweep walks a remembered copy of the bucket.
   C04.REPORT _Report.adjust_to_bounds returns what clamp_to_bounds returns for the report's own
              fields; get_status reports the swept bounds with the system exclusion zone; the
              public `bounds` are those inclusion bounds.
@@ -50,7 +54,7 @@ from ..engine.report import AnalysisError, Run
 from ..engine.resolver import Program, walk_no_nested
 from ..engine.terms import Poly
 from ._c04_util import (
-    STOPPED, NotReached, bucket_values, find_holder, split_sweep, instance_state, mk_system, with_op, LinInterp, StoreInterp, Sweep, compare_pairs, flip_strict, mirror, reach, splice, step_function, sweep_roles,
+    STOPPED, HistoryInterp, NotReached, bucket_values, find_holder, fresh_state, proposals_in, split_sweep, instance_state, mk_system, with_op, LinInterp, StoreInterp, Sweep, compare_pairs, flip_strict, mirror, reach, splice, step_function, sweep_roles,
     synth,
 )
 from .c03 import BASE, BOUNDS, MAT, _report_orderings, check_quantity_truthiness, mk_excl, mk_proposal
@@ -305,6 +309,165 @@ def check_keep(run: Run, prog: Program) -> None:
     _report_orderings(run, "C04.KEEP", fn, outs, "zone carving keeps every admissible value of the range")
     if len(outs) < 10:
         raise AnalysisError(f"{fn.qual}: only {len(outs)} abstract paths")
+
+
+# ---------------------------------------------------------------------------------------------
+EXPIRE = "drop_old_proposals"
+
+
+def _sweep_loops(prog: Program) -> dict[str, tuple[Any, ast.For]]:
+    """The proposal loop of the target sweep and of the report sweep, wherever they live (syntactic
+    binding only: the roles of the locals are not needed to see *what* is iterated)."""
+    out = {}
+    for what, entry in (("target", prog.func(CTP)), ("report", prog.func(STAT))):
+        holder = find_holder(prog, entry)
+        out[what] = (holder, split_sweep(holder)[1])
+    return out
+
+
+def check_live(run: Run, prog: Program) -> bool:  # noqa: C901
+    """C04.LIVE  what the two sweeps iterate is exactly the set of proposals in force.
+
+    A history of public calls is executed on an instance as __init__ leaves it (no attribute is in an
+    arbitrary state here: every container holds what the analysed code itself put there, so a derived
+    structure - a sorted copy, an index per priority, a memo of the last sweep - holds what the code
+    computed): actor `a` proposes, actor `b` proposes (a lower priority, or the *same* priority as `a`),
+    a report is requested, the expiry sweep runs (the age test is open: every subset of the proposals
+    expires on some path), the target is re-evaluated without a new proposal and a report is requested.
+      (1) after the two stores, the target sweep and the report sweep (asked by a priority below both)
+          iterate records of both `a` and `b`: storing a proposal takes out nothing but the same actor's
+          previous one - identity is what Proposal.__eq__ says, (priority, source);
+      (2) after the expiry sweep, both sweeps iterate exactly the members the group's bucket has now:
+          an expired proposal is equivalent to no proposal, for the re-evaluated target and for the
+          bounds reported to the lower priorities alike.
+    Returns False iff it reported (the sweep-level runs assume what this rule establishes)."""
+    ct, st = prog.func(CTP), prog.func(STAT)
+    owner = ct.cls
+    if owner is None or len(ct.params) != 5 or len(st.params) != 4:
+        raise AnalysisError(f"{ct.qual} / {st.qual}: unexpected signatures")
+    drop = prog.resolve_method(owner, EXPIRE)
+    if drop is None or len(drop.params) != 2:
+        raise AnalysisError(f"{owner.qual}: no expiry method {EXPIRE}(self, loop_time)")
+    loops = _sweep_loops(prog)
+    for fn in (ct, st, drop):
+        analysed_reach(run, prog, fn)
+    it = HistoryInterp(prog, prog.module(MAT))
+    it.loops = [lp for _h, lp in loops.values()]
+    ctx: dict[str, Any] = {}
+
+    def mk(tag: str, prio: int) -> Obj:
+        return Obj("Proposal", preferred_power=Atom(f"{tag}_pref"),
+                   bounds=Obj("Bounds", lower=Atom(f"{tag}_lo"), upper=Atom(f"{tag}_hi")),
+                   priority=prio, source_id=tag, creation_time=Atom(f"created_{tag}"), component_ids="ids")
+
+    def make_args() -> dict[str, Any]:
+        sysb, _incl, _excl = mk_system(it, "strict")
+        peer = it.choose(2, "the second actor has the same priority as the first") == 1
+        a, b = mk("a", 4), mk("b", 4 if peer else 2)
+        ctx.update(sysb=sysb, peer=peer, a=a, b=b, so=fresh_state(prog, owner, it))
+        return {}
+
+    def has(members: list[Any], p: Obj) -> bool:
+        return any(isinstance(x, Obj) and it.key(x) == it.key(p) for x in members)
+
+    def post(_res: Any) -> Any:
+        so, sysb, a, b = ctx["so"], ctx["sysb"], ctx["a"], ctx["b"]
+        bad: list[tuple[str, str, str]] = []  # (clause, sweep, text)
+        who = "an actor with the same priority" if ctx["peer"] else "a lower-priority actor"
+        _r, v1 = it.run_step("a proposes", ct, [so, "ids", a, sysb, True])
+        _r, v2 = it.run_step("b proposes", ct, [so, "ids", b, sysb, True])
+        _r, v3 = it.run_step("report", st, [so, "ids", 0, sysb])
+        for what, visits in (("target", v2), ("report", v3)):
+            for members in visits:
+                for p in (a, b):
+                    if not has(members, p):
+                        bad.append(("evict", what, (
+                            f"after actor '{a.fields['source_id']}' (priority {a.fields['priority']}) and then "
+                            f"{who} '{b.fields['source_id']}' (priority {b.fields['priority']}) have proposed, the "
+                            f"{what} sweep does not visit the proposal of '{p.fields['source_id']}', which is neither "
+                            "replaced by its own actor nor expired")))
+        it.run_step("expiry", drop, [so, Atom("now")])
+        store = so.fields.get(BUCKETS)
+        if not isinstance(store, dict):
+            raise AnalysisError(f"{owner.qual}: self.{BUCKETS} is not a plain dict after __init__ ({store!r})")
+        live = proposals_in(store.get("ids"))
+        _r, v5 = it.run_step("re-evaluation", ct, [so, "ids", None, sysb, True])
+        _r, v6 = it.run_step("report after expiry", st, [so, "ids", 0, sysb])
+        for what, visits in (("target", v5), ("report", v6)):
+            for members in visits:
+                stale = [x for x in members if isinstance(x, Obj) and not any(x is y for y in live)
+                         and not has(live, x)]
+                lost = [y for y in live if not has(members, y)]
+                if stale:
+                    names = ", ".join(f"'{x.fields.get('source_id')}'" for x in stale)
+                    bad.append(("stale", what, (
+                        f"after the expiry sweep has taken the proposal of {names} out of the group's bucket, the "
+                        f"{what} sweep still visits it")))
+                if lost:
+                    names = ", ".join(f"'{y.fields.get('source_id')}'" for y in lost)
+                    bad.append(("lost", what, (
+                        f"after the expiry sweep the proposal of {names} is still in the group's bucket (not "
+                        f"expired), but the {what} sweep no longer visits it")))
+        ctx["swept"] = (bool(v2), bool(v3), bool(v5), bool(v6))
+        ctx["dropped"] = not (has(live, a) and has(live, b))
+        return ("bad", bad) if bad else None
+
+    driver = synth("history", [], [])
+    outs = it.explore(driver, make_args, lambda r: (post(r), ctx.get("swept"), ctx.get("dropped")))
+    clean = True
+    reported: set[tuple[str, str]] = set()
+    n_dropped = n_swept = n_both = 0
+    for o in outs:
+        if o.kind == "raise":
+            clean = False
+            run.violation("C04.LIVE", ct.qual, f"raises {o.value}",
+                          f"a history of public calls (two actors propose, report, expiry sweep, re-evaluation, report) "
+                          f"raises {o.value} (decisions: {'; '.join(f'{l}={d}' for l, d in zip(o.labels, o.decisions))})",
+                          node=o.raise_node or ct.node, file=ct.file)
+            continue
+        verdict, swept, dropped = o.post
+        n_dropped += bool(dropped)
+        n_swept += bool(swept and all(swept))
+        n_both += bool(dropped and swept and all(swept))
+        if verdict is None:
+            run.ok("C04.LIVE", f"{ct.qual} / {st.qual}: history {o.decisions}")
+            continue
+        clean = False
+        for clause, what, text in verdict[1]:
+            if (clause, what) in reported:
+                continue
+            reported.add((clause, what))
+            holder, loop = loops[what]
+            tail = {
+                "evict": ("What is stored for a component group distinguishes proposals more coarsely than "
+                          "Proposal.__eq__ / __hash__ do ((priority, source)), or a store takes out more than the same "
+                          "actor's previous proposal: the evicted actor's bounds no longer take part in the "
+                          "intersection, so a lower priority's preferred power is adopted outside bounds a live "
+                          "higher-priority actor has set, get_status reports the wider range, and which of the "
+                          "proposals counts depends on the order of arrival.  (Same defect: a dict keyed by priority "
+                          "or by source alone, one slot per priority, 'latest proposal wins' per bucket, a store that "
+                          "clears or rebuilds the bucket.)"),
+                "stale": ("The sweep does not read the bucket as it is now but something remembered from an earlier "
+                          "call (a cached sorted list, an index, a snapshot) that the expiry sweep - a sibling "
+                          "mutator of the buckets - does not refresh: the bounds and the preference of an actor whose "
+                          "proposal has expired keep restricting the lower priorities until somebody happens to send "
+                          "a new proposal; an expired proposal is not equivalent to no proposal.  Every method that "
+                          "changes a bucket (store, expiry, removal of a group) must invalidate every structure "
+                          "derived from it, or the sweeps must derive it afresh."),
+                "lost": ("The sweep does not read the bucket as it is now: a proposal in force is ignored after the "
+                         "expiry sweep (a derived structure is cleared but not rebuilt, or rebuilt from the expired "
+                         "members)."),
+            }[clause]
+            run.violation("C04.LIVE", holder.qual, f"for {ast.unparse(loop.target)} in {ast.unparse(loop.iter)}",
+                          f"{text}.  {tail}  (history decisions: "
+                          f"{'; '.join(f'{l}={d}' for l, d in zip(o.labels, o.decisions))})",
+                          node=loop, file=holder.file)
+    run.extra_cov.setdefault("abstract_paths", {})["histories"] = len(outs)
+    if clean and (len(outs) < 6 or not n_both or 2 * n_swept < len(outs)):
+        raise AnalysisError(f"C04.LIVE: {len(outs)} abstract histories, {n_dropped} with an expired proposal, "
+                            f"{n_swept} in which every step reaches its sweep ({n_both} of them with an expired "
+                            "proposal): the rule would pass vacuously")
+    return clean
 
 
 # ---------------------------------------------------------------------------------------------
@@ -1087,6 +1250,40 @@ def structural_controls(prog: Program) -> list[tuple[str, str, str, str, str]]: 
     else:
         add("bucket kept in a container class of the tree", MAT, [], "C04.BUCKET")
 
+    # 16. the report sweep walks a remembered copy of the sorted bucket; a store invalidates it, the expiry
+    # sweep (the sibling mutator) does not
+    edits = []
+    init = prog.resolve_method(ct.cls, "__init__") if ct.cls is not None else None
+    me_s = sws.fn.params[0] if sws.fn.cls is not None and sws.fn.params and "staticmethod" not in {
+        getattr(d, "id", None) for d in sws.fn.node.decorator_list} else None
+    ibody = [st_ for st_ in init.node.body if not (isinstance(st_, ast.Expr) and isinstance(st_.value, ast.Constant))] \
+        if init is not None and init.module is prog.module(MAT) else []
+    iter_seg = ast.get_source_segment(mat_src, sws.loop.iter)
+    if me_s and ibody and body and iter_seg and init is not None:
+        i_first, c_first = ibody[0], body[0]
+        i_seg, c_seg = ast.get_source_segment(mat_src, i_first), ast.get_source_segment(mat_src, c_first)
+        if i_seg and c_seg:
+            edits.append((i_first, f"{init.params[0]}._ctl_sorted = {{}}\n{' ' * i_first.col_offset}{i_seg}"))
+            edits.append((sws.loop.iter, f"{me_s}._ctl_sorted.setdefault(0, {iter_seg})"))
+            edits.append((c_first, f"if {prop} is not None:\n{' ' * (c_first.col_offset + 4)}{me}._ctl_sorted.pop(0, None)\n"
+                                   f"{' ' * c_first.col_offset}{c_seg}"))
+    add("report sweep walks a cached order that expiry does not invalidate", MAT, edits, "C04.LIVE")
+
+    # 17. one slot per priority: storing a proposal takes out every stored proposal of the same priority,
+    # whoever sent it (the key of the bucket forgets the source)
+    edits = []
+    for h in reach(prog, ct):
+        if h.name == swc.fn.name and h.node is not ct.node:
+            continue
+        for n in walk_no_nested(h.node):
+            if isinstance(n, ast.Expr) and isinstance(n.value, ast.Call) and isinstance(n.value.func, ast.Attribute) \
+                    and n.value.func.attr == "add" and len(n.value.args) == 1 and not edits:
+                a, b = ast.unparse(n.value.args[0]), ast.unparse(n.value.func.value)
+                ind = " " * n.col_offset
+                edits.append((n, f"for _ctl_o in list({b}):\n{ind}    if _ctl_o.priority == {a}.priority:\n"
+                                 f"{ind}        {b}.discard(_ctl_o)\n{ind}{ast.unparse(n)}"))
+    add("one stored proposal per priority", MAT, edits, "C04.LIVE")
+
     # 11. the target sweep runs from the lowest to the highest priority
     edits = []
     for n in (n for st in list(swc.pro) + [swc.loop.iter] for n in ast.walk(st)):
@@ -1106,6 +1303,26 @@ def run_rules(run: Run, prog: Program, tier: str = "quick") -> None:
         # the bucket is an object of a class of the tree: what its methods do to the set of live proposals
         # is not something the abstract runs below may assume (they would end in "not modelled")
         return
+    # what the sweeps iterate is the set of proposals in force (histories of public calls): the runs below
+    # hand the sweeps a bucket and take it for granted.  If the histories cannot be read, the other rules
+    # still run; the failure stands unless they report the tree anyway.
+    live_error: AnalysisError | None = None
+    try:
+        if not check_live(run, prog):
+            return
+    except AnalysisError as exc:
+        live_error = exc
+    try:
+        _sweep_rules(run, prog, tier)
+    except AnalysisError:
+        if live_error is not None:
+            raise live_error from None
+        raise
+    if live_error is not None and not run.violations:
+        raise live_error
+
+
+def _sweep_rules(run: Run, prog: Program, tier: str) -> None:
     try:
         calc_sweep(prog)
     except NotReached as exc:
@@ -1141,6 +1358,9 @@ def check(run: Run, prog: Program, tier: str) -> str:
     run.rule("C04.RESULT", "calculate_target_power returns the freshly computed target unless it equals the "
              "remembered one and the caller does not insist")
     run.rule("C04.DESC", "both sweeps visit the proposals in descending priority order")
+    run.rule("C04.LIVE", "after any history of stores and expiry sweeps both sweeps iterate exactly the proposals in "
+             "force: no other actor's proposal (same priority included) is evicted by a store, no expired one is "
+             "still walked")
     run.rule("C04.BUCKET", "a group's live proposals are kept in a container of the language (set / list / dict), "
              "not in a container class of the tree whose correctness the property would then rest on")
     check_quantity_truthiness(run)
@@ -1155,6 +1375,7 @@ def check(run: Run, prog: Program, tier: str) -> str:
     run.floor("C04.RESULT", 24)
     run.floor("C04.DESC", 2)
     run.floor("C04.BUCKET", 1)
+    run.floor("C04.LIVE", 6)
     from ..engine.controls import run_controls
 
     def select(expect: str):
@@ -1165,7 +1386,8 @@ def check(run: Run, prog: Program, tier: str) -> str:
                 "C04.REPORT": lambda r, p: check_report(r, p),
                 "C04.STORE": lambda r, p: check_store(r, p), "C04.RESULT": lambda r, p: check_store(r, p),
                 "C04.DESC": lambda r, p: check_order(r, p),
-                "C04.BUCKET": lambda r, p: check_bucket(r, p)}[expect]
+                "C04.BUCKET": lambda r, p: check_bucket(r, p),
+                "C04.LIVE": lambda r, p: check_live(r, p)}[expect]
 
     # on a violating tree the controls are skipped by the engine; do not even try to locate their sites
     controls = [] if run.violations else structural_controls(prog)
